@@ -3,8 +3,9 @@ import Glas.Model.Dsl
 # M-syntax, part 5: top-level items one at a time (for C03)
 
 `runItem` runs one iteration of the module loop (`statement(p)`) from a *fresh* state positioned at
-token `pos`; `parseItems` iterates it.  C03's locality theorems are about `runItem`; `main_is_items`
-connects the item-wise view with `runMain`.
+token `pos`; `parseSeg` / `parseItems` iterate it.  C03's locality theorems are about `runItem` and
+`parseSeg`.  (That `runMain` is this iteration - an item's parse does not depend on the events, errors and
+identities accumulated before it - is not proved; the driver command `items` compares the two on every run.)
 -/
 namespace Glas.Items
 open Glas.Dsl
@@ -68,6 +69,22 @@ def stmtMaxNth : Stmt → Nat
   | .ret r => retMaxNth r
   | .call _ args _ _ => args.foldl (fun m e => max m (exprMaxNth e)) 0
   | _ => 0
+
+/-- the module loop, item by item, from token `pos` until it stands exactly at token `b` (`none`: an item panics,
+runs out of fuel, or the loop steps over `b`); `k` bounds the number of items -/
+def parseSeg (P : Prog) (stmtProc n : Nat) (toks : List Kind) : Nat → Nat → Nat → Option (List ItemOut)
+  | 0, _, _ => none
+  | k + 1, pos, b =>
+    if pos = b then some []
+    else if b < pos then none
+    else
+      match runItem P stmtProc n toks pos with
+      | .ok o => (parseSeg P stmtProc n toks k o.stop b).map (fun r => o :: r)
+      | _ => none
+
+/-- the whole module: from token 0 to the end of input (the loop `while !eof { statement }`) -/
+def parseItems (P : Prog) (stmtProc n : Nat) (toks : List Kind) (k : Nat) : Option (List ItemOut) :=
+  parseSeg P stmtProc n toks k 0 toks.length
 
 def progMaxNth (P : Prog) : Nat := P.procs.foldl (fun m p => max m (stmtMaxNth p.body)) 0
 
